@@ -76,6 +76,13 @@ def bases(seed=0):
     d.update({"fields": list(scope.DEEP_FIELDS), "payload": "coded", "seed": seed, "layout_class": "deep", "singles_only": True,
               "layout": [None, lays["multi"][0], None, lays["nonmono"][0], None, lays["multi"][0], lays["nonmono"][0]]})
     out.append(d)
+    # twelve levels (Level_10 and Level_11 sort before Level_2 as text); single corruptions only
+    from .c02 import chain_mesh
+    d = dict(chain_mesh(3, 12))
+    d.update(list(scope.geometries(3))[(seed + 2) % 6])
+    d.update({"fields": ["temp", "density"], "payload": "coded", "seed": seed, "layout_class": "twelve_levels", "singles_only": True,
+              "layout": [None, lays["multi"][0]] + [None] * 10})
+    out.append(d)
     return out
 
 
@@ -89,7 +96,7 @@ def enumerate_mutants(desc, tier, textual=False, workdir="/dev/shm"):
     import tempfile
     d = tempfile.mkdtemp(prefix="kvenum.", dir=workdir)
     try:
-        path, ref = build(desc, d)
+        path, ref = build(desc, d, prehistory=False, pathform="plain")
         model = mutate.Model(path)
     finally:
         shutil.rmtree(d, ignore_errors=True)
@@ -162,6 +169,13 @@ def run_case(case, workdir, mode="C04"):
     # sanity: the unmutated base is good
     if mutate.ref_bad(base, None, True) is not None:
         raise RuntimeError("harness: base plotfile is ref_bad: %s" % mutate.ref_bad(base, None, True))
+    # earlier in the process the caller validated the intact plotfile with one stage switched off at a time (an option belongs
+    # to the call that gives it: the validations below use the defaults)
+    if mode == "C04":
+        from amr_kitchen.taste import Taster as _T
+        for kw in ({"binary_shape": False}, {"binary_headers": False}, {"binary_shape": False, "binary_headers": False}):
+            with vpool.controlled():
+                call(lambda: _T(base, nofail=True, verbose=0, **kw))
     # history at ONE path: intact, damaged in place, repaired, damaged otherwise ... every verdict must follow the directory
     if mode == "C04" and not desc.get("coords_only"):
         ip = os.path.join(workdir, "inplace")
